@@ -56,6 +56,12 @@ func (node *tagCycleNode) Execute(ctx *ExecutionContext, writer TemplateWriter) 
 		if err != nil {
 			return err
 		}
+		if cv, ok := val.Interface().(*tagCycleValue); ok {
+			// An argument that names a cycle value (possibly this very one:
+			// {% cycle x as x %}) stands for that value's current item. Storing a cycle
+			// value inside itself makes String() recurse until the stack overflows.
+			val = cv.value
+		}
 
 		t.value = val
 
